@@ -170,8 +170,51 @@ def specRoundTrip (t : Transport) (split auto : Bool) (st : Struct) (o : Obs) : 
     else none
   else reportOK auto false o
 
-/-- the totality clause on one raw binding -/
-def specTotal (auto allow422 : Bool) (o : Obs) : Option String :=
-  if o.panicked then some "never-panics" else reportOK auto allow422 o
+/-! ### inputs that cannot be bound: they must come back as an error, never as a silent success -/
+
+/-- square brackets balance (never more `]` than `[` so far, none left open) -/
+def balancedAux : Bytes → Nat → Bool
+  | [], n => n == 0
+  | c :: cs, n =>
+    if c == 91 then balancedAux cs (n + 1)
+    else if c == 93 then (if n == 0 then false else balancedAux cs (n - 1))
+    else balancedAux cs n
+
+/-- a key written in bracket notation (`a[b][]`) whose brackets do not balance is malformed -/
+def malformedKey (k : Bytes) : Bool := k.contains 91 && !balancedAux k 0
+
+/-- literals of the integer / bool kinds, as Go's strconv reads them (floats: not judged here) -/
+def literalOK : Kind → Bytes → Bool
+  | .int bits, t => (parseInt bits t).isSome
+  | .uint bits, t => (parseUint bits t).isSome
+  | .bool, t => (parseBool t).isSome
+  | _, _ => true
+
+/-- A scalar integer / bool field receives, under its alias (one spelling, no bracket or dotted key
+    anywhere in the input that could also address it), a last value that is non-empty and no literal
+    of its type: the input cannot be bound into the struct. -/
+def unparsableScalar (specs : List FieldSpec) (pairs : List (Bytes × Bytes)) : Bool :=
+  !pairs.any (fun kv => kv.1.contains 91 || kv.1.contains 93 || kv.1.contains 46) &&
+  specs.any fun f =>
+    !f.isSlice &&
+    let hits := pairs.filter fun kv => toLower kv.1 == toLower f.salias
+    hits.all (fun kv => kv.1 == (hits.head?.map (·.1)).getD []) &&
+    match hits.getLast? with
+    | some kv => !kv.2.isEmpty && !literalOK f.kind kv.2
+    | none => false
+
+/-- which clause, if any, says this raw input must be refused.
+    `brackets`: the source reads bracket notation (query, form); `toStruct`: the target is the struct. -/
+def mustFail (specs : List FieldSpec) (brackets toStruct : Bool) (pairs : List (Bytes × Bytes)) : Option String :=
+  if brackets && pairs.any (fun kv => malformedKey kv.1) then some "unbalanced-brackets-is-error"
+  else if toStruct && unparsableScalar specs pairs then some "unparsable-value-is-error"
+  else none
+
+/-- the totality clause on one raw binding; `refuse` = `mustFail` of the input -/
+def specTotal (auto allow422 : Bool) (o : Obs) (refuse : Option String := none) : Option String :=
+  if o.panicked then some "never-panics"
+  else match refuse with
+    | some clause => if !o.err then some clause else reportOK auto allow422 o
+    | none => reportOK auto allow422 o
 
 end C11
